@@ -99,8 +99,35 @@ class Stuck(Exception):
     pass
 
 
+class ActionError(Exception):
+    def __init__(self, exc, n):
+        self.exc, self.n = exc, n
+
+
 async def do_action(part, action, sr, collect):
-    """returns (tag, list of raw byte strings); `collect` receives (part, tag, data) for the oracle"""
+    """returns (tag, list of raw byte strings); an exception is re-raised as ActionError carrying the number of
+    read_chunk / readline calls of this action that had succeeded (makes *when* the reader gives up observable)"""
+    n = [0]
+    orig_chunk, orig_line = part.read_chunk, part.readline
+
+    async def read_chunk(size=8192):
+        r = await orig_chunk(size); n[0] += 1; return r
+
+    async def readline():
+        r = await orig_line(); n[0] += 1; return r
+
+    part.read_chunk, part.readline = read_chunk, readline
+    try:
+        return await _do_action(part, action, sr)
+    except (Stuck, StepLimit):
+        raise
+    except Exception as e:
+        raise ActionError(e, n[0])
+    finally:
+        del part.read_chunk, part.readline
+
+
+async def _do_action(part, action, sr):
     k = action[0]
     if k == "R":
         d = await part.read()
@@ -192,6 +219,9 @@ def run_reader(loop, wire_segs, boundary, subtype, *, script, descend=True, pref
             events.append("STUCK"); err = "STUCK"
         except StepLimit:
             events.append("LOOP"); err = "LOOP"
+        except ActionError as e:
+            err = err_name(e.exc)
+            events.append(f"{err}@{e.n}")
         except Exception as e:
             err = err_name(e)
             events.append(err)
